@@ -10,7 +10,7 @@ import os
 import re
 import subprocess
 
-INCLUDE = "/repo/bempp_cl/core/sources/include"
+INCLUDE = os.path.join(os.environ.get("BEX_REPO") or "/repo", "bempp_cl/core/sources/include")
 
 BUILTINS_CPP = r"""
 #include <cmath>
